@@ -6,6 +6,12 @@ Property theorems only. Model: `NitroVerif/Model/ExtResolve.lean` (`resolve` = `
 `crates/semantics/src/schema_extension_resolver`, tied to the code by the correspondence check
 `harness/src/bin/c11.rs`); specification: `NitroVerif/Spec/ExtMerge.lean` (`refMerge`, `NoDupOriginal`, `NoOrphan`).
 All theorems quantify over ALL type-system documents (any number of items, names, components, files).
+
+Composed with the stages downstream (second stage): `Props/C11Composed.lean` (`C11_one_schema_definition`,
+`C11_decls_perm_from_sources`: the generated declaration files do not depend on the order of the source items, up to
+`DeclFileEquiv` / `ResolversFileEquiv`) and `Props/C10Composed.lean` (`C10_from_sources*`: every alias of the generated
+schema declaration file denotes `Ref` over `refMerge src` — the merged components of `extend type / enum / union / input /
+interface / scalar / schema` all arrive in the file, nothing lost or invented).
 -/
 namespace NitroVerif.ExtResolve
 open NitroVerif.Gql NitroVerif.ExtMerge
